@@ -544,6 +544,20 @@ def run_ident(acc: Acc, case):
     return fails
 
 
+def extreme_ident_job(job):
+    """Identification blocks at the edges of the AA55 frame format: maximal payload lengths filled with 0xFF / 0xFE / 0x00 (byte sums beyond
+    16 bits, length byte 0xFF), through discover() and ES.read_device_info() on UDP and on TCP."""
+    acc = Acc()
+    for n in (255, 254, 253, 250, 200, 86, 1, 0):
+        for fill in (0xFF, 0xFE, 0x80, 0x00, 0x7F):
+            for target, port in (("ES", 8899), ("discover", 8899), ("ES", 502)):
+                case = {"target": target, "ident": bytes((fill,)) * n, "port": port, "extreme": True}
+                for key, msg, c in run_ident(acc, case):
+                    acc.fail(key, msg, c)
+    acc.sample(case)
+    return acc
+
+
 def ident_strategy(target):
     from hypothesis import strategies as st
     import goodwe.model as gm
@@ -635,6 +649,7 @@ def ident_job(job):
 def run(ctx):
     jobs = [("ET", 8899, False), ("ET", 8899, True), ("ET", 502, False), ("ET", 502, True),
             ("DT", 8899, True), ("DT", 502, False), ("ES", 8899, False), ("ES", 8899, True)]
+    ctx.shard(extreme_ident_job, [0], "C: maximal-length AA55 identification blocks filled with 0xFF/0xFE/0x80/0x00 (byte sum beyond 16 bits) on UDP and TCP")
     ctx.shard(enum_a_job, jobs, "A: every public call x fault/OS-error placed on transmission 0..2, entry points, TCP connect failures")
     n = ctx.pick(2400, 40000)
     ctx.shard(hyp_a_job, [(ctx.seed * 1000 + i, n // 16) for i in range(16)], "A: hypothesis call sequences x fault scripts")
